@@ -97,7 +97,7 @@ def cases(seed, tier="quick"):
         ("broken-in-import", {"zinoma.yml": yml({"a": B("a", dependencies=["lib::l"])}, name="root", imports={"lib": "lib"}), "lib/zinoma.yml": yml({"l": B("l", dependencies=["missing"])}, name="lib")}, [["a"]], "an unknown target referenced from an imported project"),
     ]
     for (n, files, reqs, why) in rej9:
-        out.append(C("c09-" + n, rejected("C09", files, reqs, why), why))
+        out.append(C("c09-" + n, rejected(["C09", "C14"], files, reqs, why), why))
     out.append(C("c09-unreachable-cycle-ok", accepted_runs("C09", {"zinoma.yml": yml({"ok": B("ok"), "a": B("a", dependencies=["b"]), "b": B("b", dependencies=["a"])})}, ["ok"], ["ok"], "a cycle that is not reachable from the request does not matter"), "only reachable references matter"))
     out.append(C("c09-closure-exact", accepted_runs("C09", {"zinoma.yml": yml({"p": B("p", output=OUT), "c": B("c", input=["p.output"]), "d": B("d", dependencies=["c"]), "u": B("u"), "v": B("v", dependencies=["u"])})}, ["d"], ["p", "c", "d"], "closure through dependencies and X.output"), "exactly the reachable targets run"))
     out.append(C("c09-ref-in-own-project", accepted_runs(["C09", "C19"], {"zinoma.yml": yml({"t": B("root-t"), "top": B("top", dependencies=["lib::entry"])}, name="root", imports={"lib": "lib"}), "lib/zinoma.yml": yml({"entry": B("entry", dependencies=["t"]), "t": B("lib-t")}, name="lib")}, ["top"], ["top", "entry", "lib-t"], "a bare reference in lib's file means lib's own target"), "references resolve in the project of the referencing target"))
@@ -128,6 +128,7 @@ def cases(seed, tier="quick"):
         ("service-with-output", {"zinoma.yml": "targets:\n  a:\n    service: sleep 1\n    output:\n      - paths: [out]\n"}, "a service declaring outputs"),
         ("build-not-a-string", {"zinoma.yml": "targets:\n  a:\n    build: [1, 2]\n"}, "a build script that is not a string"),
         ("dependencies-not-a-list", {"zinoma.yml": "targets:\n  a:\n    dependencies: dep\n    build: echo hi >> \"$ZLOG\"\n  dep:\n    build: echo hi >> \"$ZLOG\"\n"}, "dependencies that are not a list"),
+        ("root-name-duplicated-transitively", {"zinoma.yml": "name: app\nimports:\n  tools: tools\ntargets:\n  a:\n    build: echo hi >> \"$ZLOG\"\n", "tools/zinoma.yml": "name: tools\nimports:\n  app: ../vendor/app\ntargets:\n  gen:\n    build: echo tools >> \"$ZLOG\"\n", "vendor/app/zinoma.yml": "name: app\ntargets:\n  a:\n    build: echo vendored >> \"$ZLOG\"\n"}, "a transitively imported project carrying the root project's name (duplicate)"),
         ("not-yaml", {"zinoma.yml": "targets: [\n"}, "a file that is not YAML"),
         ("targets-not-map", {"zinoma.yml": "targets: 3\n"}, "targets of the wrong type"),
         ("empty-file", {"zinoma.yml": ""}, "an empty file"),
@@ -145,8 +146,8 @@ def cases(seed, tier="quick"):
         out.append(C("c14-sibling-import-" + n, rejected_in("C14", files, "app", [["a"], ["--clean"]], "%s in a project imported from a sibling directory" % why), why))
     cyc = {"zinoma.yml": yml({"a": B("a", dependencies=["sub::s"])}, name="root", imports={"sub": "sub"}), "sub/zinoma.yml": yml({"s": B("s", dependencies=["root::leaf"])}, name="sub", imports={"root": ".."})}
     cyc["zinoma.yml"] = yml({"a": B("a", dependencies=["sub::s"]), "leaf": B("leaf")}, name="root", imports={"sub": "sub"})
-    out.append(C("c14-import-cycle-ok", accepted_runs("C14", cyc, ["a"], ["a", "s", "leaf"], "projects importing each other are loaded once each"), "import cycle is not an error and never a crash"))
-    out.append(C("c14-import-cycle-from-sub", accepted_runs("C14", cyc, ["s"], ["s", "leaf"], "the same configuration entered from the sub-project", cwd="sub"), "import cycle from the other end"))
+    out.append(C("c14-import-cycle-ok", accepted_runs(["C14", "C09"], cyc, ["a"], ["a", "s", "leaf"], "projects importing each other are loaded once each"), "import cycle is not an error and never a crash"))
+    out.append(C("c14-import-cycle-from-sub", accepted_runs(["C14", "C09"], cyc, ["s"], ["s", "leaf"], "the same configuration entered from the sub-project", cwd="sub"), "import cycle from the other end"))
     out.append(C("c14-self-import", accepted_runs("C14", {"zinoma.yml": yml({"a": B("a", dependencies=["me::b"]), "b": B("b")}, name="me", imports={"me": "."})}, ["a"], ["a", "b"], "a project importing itself under its own name"), "self import"))
     # ---- C19: names -----------------------------------------------------------------------------------
     two = {"zinoma.yml": yml({"t": B("root-t"), "only_root": B("only_root")}, name="root", imports={"lib": "lib"}), "lib/zinoma.yml": yml({"t": B("lib-t", dependencies=["helper"]), "helper": B("lib-helper")}, name="lib")}
